@@ -416,3 +416,56 @@ Definition check_c14_tree (c : c14_tree_case) : bool :=
   | Done (ts, ([], [])) => list_eqb tok_eqb (no_txt ts) obs && list_eqb tok_eqb (no_txt (inline [] its)) obs
   | _ => false
   end.
+
+(* ---------- string level: recognising a placeholder and reading its id ---------- *)
+(* Hand matcher for  nested_comp_pattern.match(s)  (pattern `<template [^>]*?djc-render-id="\w{6}"[^>]*?></template>`,
+   anchored at the start of s) followed by render_id_pattern.search(match[0]) (first `djc-render-id="(\w{6})"`):
+   none of the pieces can contain '>', so the tag interior is everything up to the first '>', that '>' must
+   start `></template>`, and the id is the first occurrence of the key inside the interior.
+   Result: the id and the text after the placeholder.  ASCII documents (\w = [0-9A-Za-z_]). *)
+Import Coq.Strings.String.StringSyntax.
+Local Delimit Scope string_scope with string.
+
+Definition is_word (c : N) : bool :=
+  ((48 <=? c) && (c <=? 57) || (65 <=? c) && (c <=? 90) || (c =? 95) || (97 <=? c) && (c <=? 122))%N.
+
+Fixpoint take_until (c : N) (s : str) : str * str :=
+  match s with
+  | [] => ([], [])
+  | x :: r => if N.eqb x c then ([], s) else let '(a, b) := take_until c r in (x :: a, b)
+  end.
+
+Definition ph_open : str := s2n "<template "%string.
+Definition ph_key : str := s2n "djc-render-id="""%string.
+Definition ph_close : str := s2n "></template>"%string.
+
+Definition id_here (s : str) : option str :=
+  let id := firstn 6 s in
+  if Nat.eqb (length id) 6 && forallb is_word id && starts_with [34%N] (skipn 6 s) then Some id else None.
+
+Fixpoint find_id (s : str) : option str :=
+  match (if starts_with ph_key s then id_here (skipn (length ph_key) s) else None) with
+  | Some id => Some id
+  | None => match s with [] => None | _ :: r => find_id r end
+  end.
+
+Definition match_placeholder_at (s : str) : option (str * str) :=
+  if starts_with ph_open s then
+    let '(interior, rest) := take_until 62%N (skipn (length ph_open) s) in
+    if starts_with ph_close rest then
+      match find_id interior with
+      | Some id => Some (id, skipn (length ph_close) rest)
+      | None => None
+      end
+    else None
+  else None.
+
+(* case = (text, what `re` answers: id and number of characters left after the match) *)
+Definition ph_case := (str * option (str * N))%type.
+Definition check_ph (c : ph_case) : bool :=
+  let '(s, e) := c in
+  match match_placeholder_at s, e with
+  | Some (id, rest), Some (id', n) => str_eqb id id' && N.eqb (N.of_nat (length rest)) n
+  | None, None => true
+  | _, _ => false
+  end.
